@@ -96,6 +96,9 @@ def one_path(E, ctx, prog, desc_base, raising=False):
             if not (o2 == ("ret", None) or o2 == ("exc", "TypeError") or o1 == ("exc", "UnboundLocalError")):
                 # D12 explains a mismatch only when None surfaced or the original left the target unbound
                 cs = [c for c in cs if not c.startswith("D12")]
+            if not (o1 == ("exc", "UnboundLocalError") and o2 == ("exc", "NameError")):
+                # D18 explains exactly this pair of exception types
+                cs = [c for c in cs if not c.startswith("D18")]
             sig = "behaviour:" + ("+".join(cs) if cs else kind)
             fails.append({"kind": "behaviour", "signature": sig, "detail": f"[{label}] {kind}: {detail}"[:300], "inputs": inp})
             return fails, "compared"
@@ -170,7 +173,9 @@ def jobs(tier):
     ]
     armloop = _job("S2-loop-in-branch-arm", lambda ch: s2.ArmLoopGen(ch), 3,
                    {"space": "S2-armloop", "programs": "loop kind x two guarded terminators / plain branches in the body x loop else x statement before / after the loop in the arm x other arm (none, marker, early return, return)"}, 900)
-    barejobs = barejobs + [armloop]
+    deadscope = _job("S2-names-bound-only-in-dead-code", lambda ch: s2.DeadScopeGen(ch), 1,
+                     {"space": "S2-deadscope", "programs": "an assignment behind return / break / continue x a read of that name in live code"}, 300)
+    barejobs = barejobs + [armloop, deadscope]
     if tier == "quick":
         return raisejobs + barejobs + [forjob, loopjob, passjob, passjob2,
             _job("S2-ctl-c2-d2-t1", lambda ch: s2.CtlGen(ch, 2, 2, 1), 3,
